@@ -174,6 +174,7 @@ static void read_schema(FILE *in, int nmsgs)
 		unsigned off = sizeof(ProtobufCMessage);
 		int g;
 		if (!read_line(in)) die("eof in schema");
+		printf("\n");
 		tokenize(g_line);
 		if (strcmp(tok(), "msg")) die("expected msg");
 		(void) tok_ll();
@@ -192,6 +193,7 @@ static void read_schema(FILE *in, int nmsgs)
 			FieldX *x = &mx->x[j];
 			const char *d;
 			if (!read_line(in)) die("eof in schema");
+			printf("\n");
 			tokenize(g_line);
 			if (strcmp(tok(), "f")) die("expected f");
 			f->name = strdup(tok());
@@ -231,7 +233,7 @@ static void read_schema(FILE *in, int nmsgs)
 			f->offset = mx->group_union_off[x->group];
 		}
 		mx->d.sizeof_message = off;
-		mx->d.fields = mx->f;
+		mx->d.fields = mx->d.n_fields ? mx->f : NULL;   /* the generator emits NULL for an empty message */
 		/* name index */
 		mx->by_name = calloc(mx->d.n_fields + 1, sizeof(unsigned));
 		for (j = 0; j < mx->d.n_fields; j++) mx->by_name[j] = j;
@@ -609,7 +611,7 @@ static void op_acc(void)
 		RecBuf rb; ProtobufCMessage *m2; uint8_t *in2;
 		memset(&rb, 0, sizeof rb); rb.base.append = recbuf_append;
 		w3 = protobuf_c_message_pack_to_buffer(m, &rb.base);
-		printf("ok check=%d size=%zu same3=%d pack=", chk, sz, (w == sz && w3 == sz && rb.len == sz && memcmp(rb.data, b, sz) == 0));
+		printf("ok check=%d size=%zu same3=%d pack=", chk, sz, (w == sz && w3 == sz && rb.len == sz && (sz == 0 || memcmp(rb.data, b, sz) == 0)));
 		put_hex(b, w);
 		in2 = exact_copy(b, w);
 		m2 = protobuf_c_message_unpack(&mx->d, &g_rec, w, in2);
@@ -757,7 +759,7 @@ int main(int argc, char **argv)
 		if (!g_line[0] || g_line[0] == '#') { printf("\n"); continue; }
 		tokenize(g_line);
 		op = tok();
-		if (!strcmp(op, "schema")) { read_schema(in, (int) tok_ll()); printf("schema ok\n"); continue; }
+		if (!strcmp(op, "schema")) { printf("schema ok\n"); read_schema(in, (int) tok_ll()); continue; }
 		if (isolate) {
 			/* run the operation in a child with a watchdog; a sanitizer abort, signal or timeout is a
 			   RESULT attributed to this case.  Output goes through a pipe so partial lines are dropped. */
